@@ -130,6 +130,12 @@ func scenSUB(s *sched.Sim, cfg Config, res *Result) {
 	}
 	clients := make([]*wsClient, nConn)
 	finished := 0
+	// drawn here, on the driver goroutine: client goroutines can be woken concurrently by timers
+	// and must not touch the tape
+	stopFirst := make([]bool, nConn)
+	for c := range stopFirst {
+		stopFirst[c] = s.T.Bool(1, 2)
+	}
 	for c := 0; c < nConn; c++ {
 		c := c
 		s.Go(fmt.Sprintf("wsclient%d", c), func() {
@@ -159,7 +165,7 @@ func scenSUB(s *sched.Sim, cfg Config, res *Result) {
 				}
 				cl.waitFrames(sp.id, want, 120*time.Second)
 			}
-			if s.DrawBool(1, 2) {
+			if stopFirst[c] {
 				for _, sp := range mine {
 					cl.send("stop", sp.id, nil)
 				}
